@@ -99,6 +99,53 @@ class C11(Prop):
                         out.append(viol(f"a configuration accepted by the validator crashed or hung when its curves were evaluated: {g[:80]}", cops, cgo, upto=i))
         return out
 
+    def extra(self, ctx):
+        """the real command `fan2go config validate -c <file>` (binary built from the tree) must give the verdict of the
+        function the stream exercises: exit 0 + 'Config looks good' iff the loader path accepts"""
+        import base64
+        import os
+        import shutil
+        import subprocess
+        import tempfile
+        from .. import gobuild, run as runmod
+        tier, r = ctx["tier"], ctx["rng"]
+        try:
+            binary = gobuild.build("fan2go")
+        except gobuild.BuildError as e:
+            return [], {"broken": [f"fan2go build failed: {e}: {e.output[-600:]}"]}
+        ops = sc.gen_config_witnesses() + sc.gen_config(r, 25 if tier == "quick" else 300)
+        res = runmod.both(ctx["binary"], ops, parallel=4) if ctx.get("binary") else None
+        viols, n, classes = [], 0, set()
+        base = tempfile.mkdtemp(prefix="c11cli-", dir=os.path.join(gobuild.BUILD, "scratch"))
+        try:
+            for i, op in enumerate(ops):
+                if not op.startswith("cfg.load") or res is None:
+                    continue
+                a = kv(op)
+                verdict = kv(res["go"][i]).get("verdict", "")
+                if verdict.startswith("panic"):
+                    continue   # undecodable documents: outside the property
+                path = os.path.join(base, f"c{i}.yaml")
+                y = a["yaml"]
+                open(path, "wb").write(base64.b64decode(y + "=" * (-len(y) % 4)))
+                os.chmod(path, int(a.get("mode", "644"), 8))
+                env = dict(os.environ)
+                env.pop("DISPLAY", None)
+                p = subprocess.run([binary, "config", "validate", "-c", path, "--no-style"], env=env, stdout=subprocess.PIPE,
+                                   stderr=subprocess.STDOUT, text=True, timeout=60)
+                n += 1
+                cli_ok = p.returncode == 0 and "Config looks good" in p.stdout
+                classes.add((verdict.split(":")[0], cli_ok))
+                cli_rej = p.returncode != 0 and "Config looks good" not in p.stdout
+                if not (cli_ok or cli_rej) or cli_ok != (verdict == "ok"):
+                    from ..check import Violation
+                    viols.append(Violation(f"`fan2go config validate` says {'accepted' if cli_ok else 'rejected'} (exit {p.returncode}) but the "
+                                           f"validator's verdict on the same file is {verdict}", stream="cli",
+                                           case_ops=[op], go=[p.stdout[-400:]]))
+        finally:
+            shutil.rmtree(base, ignore_errors=True)
+        return viols, {"evaluations": n, "nontrivial": classes, "traces_validated": n, "cli_runs": n}
+
     def nontrivial(self, name, ops, go):
         s = set()
         for op, g in zip(ops, go):
